@@ -35,6 +35,8 @@ Clauses(ev) ==
               \A k \in 1..Len(ev.dims) : ev.mode[k] + 1 \in L!ArgMax(L!Piece(ev.w, ev.dims, k), L!Piece(ev.m, ev.dims, k)),
           SamplesAreComponentwiseAllowed |->
               \A s \in 1..Len(ev.samples) : \A k \in 1..Len(ev.dims) : ev.samples[s][k] + 1 \in L!Allowed(L!Piece(ev.m, ev.dims, k))]
+    [] ev.ev = "batched" ->   \* parameters with a leading batch dimension: row-wise identities, atoms only
+         [CaseNamesABatchableLaw |-> ev.kind \in {"Categorical", "Bernoulli", "MultiCategoricalFlat", "MultiCategoricalSeq", "Normal", "SquashedNormal"}]
     [] ev.ev = "cont" ->   \* continuous laws: nothing discrete to model; only the harness-evaluated atoms are collected
          [CaseNamesAContinuousLaw |-> ev.kind \in {"Normal", "MultivariateNormalDiag", "SquashedNormal", "SquashedMultivariateNormalDiag",
                                                   "MLPSACPolicy"}]     \* the continuous-action policy built on the squashed laws (C16)
